@@ -3,6 +3,8 @@ package c18
 import (
 	"fmt"
 	"math"
+	"math/big"
+	"os"
 	"sync"
 	"testing"
 	"time"
@@ -13,6 +15,7 @@ import (
 	"github.com/tuneinsight/lattigo/v6/core/rlwe"
 	"github.com/tuneinsight/lattigo/v6/ring"
 	"github.com/tuneinsight/lattigo/v6/schemes/ckks"
+	"github.com/tuneinsight/lattigo/v6/utils/bignum"
 	"pgregory.net/rapid"
 )
 
@@ -419,6 +422,12 @@ func runBoot(c BootCase, rec *h.Rec) error {
 		}
 	}
 
+	if c.Cfg.Iter != nil {
+		if err := iterOracle(c, b, eval, sk, want[0], rec); err != nil {
+			return err
+		}
+	}
+
 	// the key set generated is exactly the key set the circuit looked up
 	if len(rk.missing) != 0 {
 		return h.Failf("C18:keys:galois:lookup-missing", "the circuit looked up Galois keys %v that GenEvaluationKeys did not produce", sortedU64(rk.missing))
@@ -445,6 +454,98 @@ func runBoot(c BootCase, rec *h.Rec) error {
 	return nil
 }
 
+// bigPrecision is the mean over the slots of -log2|error| (minimum of real and imaginary part) with 128-bit arithmetic.
+func bigPrecision(want []complex128, have []*bignum.Complex) float64 {
+	var sumRe, sumIm float64
+	for i := range want {
+		for j, w := range []float64{real(want[i]), imag(want[i])} {
+			e := new(big.Float).SetPrec(128).Sub(have[i][j], new(big.Float).SetPrec(128).SetFloat64(w))
+			e.Abs(e)
+			bits := 120.0
+			if e.Sign() != 0 {
+				m := new(big.Float)
+				exp := e.MantExp(m)
+				f, _ := m.Float64()
+				bits = math.Min(120, -(math.Log2(f) + float64(exp)))
+			}
+			if j == 0 {
+				sumRe += bits
+			} else {
+				sumIm += bits
+			}
+		}
+	}
+	return math.Min(sumRe, sumIm) / float64(len(want))
+}
+
+// iterOracle: iterated (META-BTS) mode. BootstrappingPrecision[i] is the declared precision of one pass; the documentation
+// of ParametersLiteral announces "a bootstrapping of precision ~k*logprec by iteration", every extra iteration removing
+// the error down to 2^-(logprec_1+...+logprec_k) times the error of one pass, up to the precision the residual scale can
+// hold. The same ciphertext is bootstrapped with the first k = 0..n entries of the list (same parameters, same keys: the
+// list does not enter the parameter generation) and the mean precisions P_0..P_n are compared:
+//
+//	differential: P_k >= min(P_(k-1) + 0.6*gain_k, C)      absolute: P_n >= min(12 + gain_1+...+gain_n, C)
+//
+// gain_k = BootstrappingPrecision[k-1] (without reserved prime additionally <= log2(q1) - sum of the first k entries, the
+// documented limit of the integer scale-up), 12 bits = the repository's floor for one pass of the raw circuit,
+// ceiling C = LogDefaultScale - LogN/2 - 8 bits.
+func iterOracle(c BootCase, b built, eval *bootstrapping.Evaluator, sk *rlwe.SecretKey, want []complex128, rec *h.Rec) error {
+	p1 := b.res
+	ecd := ckks.NewEncoder(p1, 128)
+	enc := rlwe.NewEncryptor(p1, sk)
+	dec := rlwe.NewDecryptor(p1, sk)
+	ct0, _, err := encodeEncrypt(p1, ecd, enc, want, c.Level, c.CtSlots)
+	if err != nil {
+		return h.Failf("C18:harness:encrypt", "%v", err)
+	}
+	it := c.Cfg.Iter
+	n := len(it)
+	ceil := float64(p1.LogDefaultScale()) - 0.5*float64(p1.LogN()) - 8
+	logq1 := math.Log2(float64(p1.Q()[1]))
+	P := make([]float64, n+1)
+	gain := make([]float64, n+1)
+	tot := 0.0
+	for k := 0; k <= n; k++ {
+		ek := *eval
+		ek.Parameters.IterationsParameters = &bootstrapping.IterationsParameters{BootstrappingPrecision: append([]float64{}, it[:k]...), ReservedPrimeBitSize: c.Cfg.Reserved}
+		out, err := ek.Evaluate(ct0.CopyNew())
+		if err != nil {
+			return h.Failf("C18:Evaluate:iterated:error", "first %d of %v iterations: %v", k, it, err)
+		}
+		if out.Level() != eval.OutputLevel() {
+			return h.Failf("C18:Evaluate:iterated:output-level", "first %d of %v iterations: level %d, announced %d", k, it, out.Level(), eval.OutputLevel())
+		}
+		have := make([]*bignum.Complex, 1<<out.LogDimensions.Cols)
+		if err := ecd.Decode(dec.DecryptNew(out), have); err != nil {
+			return h.Failf("C18:harness:decode", "%v", err)
+		}
+		P[k] = bigPrecision(want, have)
+		if k > 0 {
+			tot += it[k-1]
+			gain[k] = it[k-1]
+			if c.Cfg.Reserved == 0 {
+				gain[k] = math.Max(0, math.Min(gain[k], logq1-tot))
+			}
+		}
+	}
+	rec.Note("iterPrec", fmt.Sprintf("%.1f (ceiling %.1f)", P, ceil))
+	if os.Getenv("C18_TRACE") != "" {
+		fmt.Printf("ITER base=%s logN=%d slots=%d eph=%d iter=%v reserved=%d pattern=%s: P=%.1f ceiling %.1f\n", c.Cfg.Base, c.Cfg.LogN, c.Cfg.LogSlots, c.Cfg.Eph, it, c.Cfg.Reserved, c.Pattern, P, ceil)
+	}
+	rec.Classf("iter=%d/reserved=%v", n, c.Cfg.Reserved > 0)
+	sum := 0.0
+	for k := 1; k <= n; k++ {
+		sum += gain[k]
+		if need := math.Min(P[k-1]+0.6*gain[k], ceil); P[k] < need {
+			return h.Failf("C18:Evaluate:iterated:gain", "BootstrappingPrecision=%v reserved=%d: precision after 0..%d extra iterations %.1f bits; iteration %d announces +%.0f bits but brings %.1f (needs >= %.1f, ceiling %.1f)", it, c.Cfg.Reserved, n, P, k, gain[k], P[k]-P[k-1], need, ceil)
+		}
+	}
+	if need := math.Min(12+sum, ceil); P[n] < need {
+		return h.Failf("C18:Evaluate:iterated:precision", "BootstrappingPrecision=%v reserved=%d: %.1f bits after all iterations < %.1f", it, c.Cfg.Reserved, P[n], need)
+	}
+	return nil
+}
+
 func genBootCase(t *rapid.T) BootCase {
 	var c BootCase
 	maxLogN := 10
@@ -456,26 +557,39 @@ func genBootCase(t *rapid.T) BootCase {
 	cfg := &c.Cfg
 	b, _ := getBase(cfg.Base)
 
+	mode := draw(t, "mode", 8)
+	// 1/8 of the cases: iterated (META-BTS) mode in the repository's own arrangement (testRawCircuitHighPrecision): a {60,40}
+	// residual chain (S0, D0, T45), default scale 2^80, input at level 1, raw circuit, the literal's other options
+	if mode == 0 {
+		cfg.Base = []string{"S0", "D0", "T45"}[draw(t, "iterBase", 3)]
+		cfg.Iter, cfg.Reserved = genIter(t)
+		cfg.Mod1, cfg.Mod1Deg, cfg.DblAngle, cfg.InvDeg = "", -1, -1, -1
+		cfg.C2S, cfg.S2C, cfg.LogP = nil, nil, nil
+		cfg.LogSlots = cfg.LogN - 1 - draw(t, "sparsity", 3)
+		cfg.MsgCorr = minInt(maxInt(15-cfg.LogSlots, 0), 8)
+		cfg.Res, cfg.DN = "eq", 0
+		cfg.NQ = 2
+		cfg.LogScale = 80
+		if cfg.Eph == 0 {
+			cfg.H1, cfg.H2 = minInt(cfg.H1, 32), minInt(cfg.H2, 32)
+		} else if cfg.Base == "D0" {
+			cfg.H1, cfg.H2 = (1<<cfg.LogN)/2, (1<<cfg.LogN)/2
+		} else {
+			cfg.H1, cfg.H2 = minInt(192, (1<<cfg.LogN)/2), minInt(192, (1<<cfg.LogN)/2)
+		}
+		c.API, c.Level, c.CtSlots, c.Batch = "Evaluate", 1, cfg.LogSlots, 1
+		c.Pattern = patterns[draw(t, "pattern", 3)]
+		c.Copy = draw(t, "copy", 4) == 0
+		return c
+	}
 	// half of the cases keep the literal's own circuit options at (nearly) full packing: the announced-precision domain
-	if draw(t, "plain", 2) == 0 {
+	if mode <= 4 {
 		cfg.Mod1, cfg.Mod1Deg, cfg.DblAngle, cfg.InvDeg = "", -1, -1, -1
 		cfg.C2S, cfg.S2C, cfg.Iter, cfg.Reserved = nil, nil, nil, 0
 		if cfg.Res != "ci" {
 			cfg.LogSlots = cfg.LogN - 1 - draw(t, "sparsity", 3)
 		}
 		cfg.MsgCorr = minInt(maxInt(15-cfg.LogSlots, 0), 8)
-	}
-
-	// iterated (META-BTS) mode: the repository's own arrangement - default scale 2^80 on {Q0, Q1}, input at level 1, raw circuit
-	if cfg.Iter != nil {
-		cfg.Res, cfg.DN = "eq", 0
-		cfg.NQ = 2
-		cfg.LogScale = 80
-		cfg.H1 = minInt(cfg.H1, (1<<cfg.LogN)/2)
-		c.API, c.Level, c.CtSlots, c.Batch = "Evaluate", 1, cfg.LogSlots, 1
-		c.Pattern = patterns[draw(t, "pattern", 3)]
-		c.Copy = draw(t, "copy", 4) == 0
-		return c
 	}
 
 	// half of the shipped literals put two SlotsToCoeffs matrices on one prime ({30,30}), which is a listed finding:
